@@ -1,6 +1,6 @@
 \* spec mutation: the minimum instead of the maximum capacity is charged against the limits
 CONSTANTS Catalogs = {1}  Limits = {2}  Daemons = {1}  Batches = {2}  Laters = {0}
-CONSTANTS MaxRounds = 3  MaxClaims = 3  MaxSteps = 4  Resyncs = {FALSE}  EphForms = {2}  StForms = {2}
+CONSTANTS MaxRounds = 3  MaxClaims = 3  MaxSteps = 4  AllowForeign = TRUE  Resyncs = {FALSE}  EphForms = {2}  StForms = {2}
 CONSTANTS W_NoSyncGate = FALSE  W_SubMin = TRUE  W_SubDominating = FALSE  W_StartupBlocks = FALSE  W_CountMarked = FALSE  W_ZeroSkips = FALSE  W_NoZeroFallback = FALSE  W_DaemonTwice = FALSE  W_SyncBeforeBatch = FALSE  C_NodesPerPass = FALSE  C_OverrideBase = FALSE
 SPECIFICATION Spec
 VIEW view
